@@ -305,14 +305,22 @@ type slowReader struct {
 	chunk int
 	pause time.Duration
 	mark  *atomic.Int64
+	// perChunk: pause once per chunk bytes delivered instead of once per Read (a TLS connection hands out one
+	// 16 KiB record per Read: the rate would depend on the listener)
+	perChunk bool
+	credit   int
 }
 
 func (s *slowReader) Read(b []byte) (int, error) {
-	time.Sleep(s.pause)
+	if !s.perChunk || s.credit <= 0 {
+		time.Sleep(s.pause)
+		s.credit += s.chunk
+	}
 	if len(b) > s.chunk {
 		b = b[:s.chunk]
 	}
 	n, err := s.r.Read(b)
+	s.credit -= n
 	if n > 0 {
 		s.mark.Store(time.Now().UnixNano())
 	}
@@ -333,9 +341,13 @@ func (c *connRun) expectResponse(method string, slow bool, wantBody int) (string
 	br := c.cl.BR
 	if slow {
 		c.markReady()
-		br = bufio.NewReaderSize(&slowReader{r: c.cl.BR, chunk: 64 << 10, pause: 2 * time.Millisecond, mark: &c.lastRecv}, 64<<10)
+		pause := 2 * time.Millisecond
+		if c.sc.PauseMs > 0 {
+			pause = time.Duration(c.sc.PauseMs) * time.Millisecond
+		}
+		br = bufio.NewReaderSize(&slowReader{r: c.cl.BR, chunk: 64 << 10, pause: pause, mark: &c.lastRecv, perChunk: c.sc.PauseMs > 0}, 64<<10)
 	}
-	c.cl.Conn.SetReadDeadline(time.Now().Add(20 * time.Second))
+	c.cl.Conn.SetReadDeadline(time.Now().Add(20*time.Second + time.Duration(c.sc.PauseMs)*time.Second))
 	m, err := rig.ReadResponse(br, method)
 	c.cl.Conn.SetReadDeadline(time.Time{})
 	if err != nil || m == nil || !m.Complete {
@@ -412,7 +424,7 @@ func (c *connRun) afterResponse(cl bool) {
 
 // idle: the connection is open with nothing outstanding; once closing is known do what After says.
 func (c *connRun) idle() {
-	switch c.awaitByte(20*time.Second, c.cr.known) {
+	switch c.awaitByte(c.cr.patience(), c.cr.known) {
 	case stClosed:
 		c.sawClosed()
 		return
@@ -420,6 +432,8 @@ func (c *connRun) idle() {
 		c.cr.note("conn %d: unsolicited bytes on an idle connection", c.k)
 		return
 	case stTimeout:
+		// nobody learnt that closing is set (every sentinel lost its race): leave, as a client may at any time
+		c.vanish()
 		return
 	}
 	switch c.sc.After {
@@ -428,6 +442,12 @@ func (c *connRun) idle() {
 		got, cl := c.expectResponse("GET", false, 64)
 		if got == "resp" {
 			c.afterResponseNoLoop(cl)
+		}
+	case "connect":
+		// a CONNECT first sent after closing is known: like any other request it must be dropped, not dialled
+		c.send(true, false, 0, c.requestBytes(true, false))
+		if got, _ := c.expectResponse("CONNECT", false, 0); got == "resp" {
+			c.waitClosed()
 		}
 	case "close":
 		c.vanish()
@@ -646,11 +666,18 @@ func (c *connRun) run() {
 			return
 		}
 		// the tunnel keeps working while the proxy drains
-		for !isClosed(cr.known) && !isClosed(cr.finished) {
+		for end := time.Now().Add(cr.patience()); !isClosed(cr.known) && !isClosed(cr.finished) && time.Now().Before(end); {
 			if !c.ping() {
 				return
 			}
 			waitOr(cr.known, 15*time.Millisecond)
+		}
+		// ... and for HoldMs more (in-flight work that outlasts a short shutdown timeout)
+		for end := time.Now().Add(time.Duration(sc.HoldMs) * time.Millisecond); time.Now().Before(end) && !isClosed(cr.finished); {
+			if !c.ping() {
+				return
+			}
+			waitOr(cr.finished, 15*time.Millisecond)
 		}
 		if !c.ping() {
 			return
@@ -733,10 +760,10 @@ func (c *connRun) sentinel() {
 			return
 		}
 		// served: closing was not yet set when the request was checked
-		switch c.awaitByte(20*time.Second, cr.known) {
+		switch c.awaitByte(cr.patience(), cr.known) {
 		case stClosed:
 			c.sawClosed()
-		case stStopped:
+		case stStopped, stTimeout:
 			c.vanish()
 		}
 	}
